@@ -13,7 +13,7 @@ for w in $(seq 1 $P); do
       set -- $l
       s=$(date +%s)
       r=$(MUT_SLOT=slot$w tools/mutant.sh "$1" "$2" "$tier" 2>&1 | tail -1 | cut -c1-260)
-      echo "$1 $(basename $2) $(( $(date +%s)-s ))s $r" >> "$out"
+      echo "$1 ${2#/verif/} $(( $(date +%s)-s ))s $r" >> "$out"
     done
   ) &
 done
